@@ -104,6 +104,49 @@ func specialiseTablePhis(fn *ssa.Function, optional bool) bool {
 				}
 			}
 		}
+		// a function chosen by control flow and called behind the join: `wrap :=
+		// plain.wrap; if flag { wrap = verified.wrap }; route(wrap(h))` — each way of
+		// arriving calls one known function, which can then be inlined
+		if !found {
+			for _, in := range J.Instrs {
+				phi, ok := in.(*ssa.Phi)
+				if !ok {
+					break
+				}
+				if _, isSig := phi.Type().Underlying().(*types.Signature); !isSig || phi.Referrers() == nil {
+					continue
+				}
+				known, distinct := true, false
+				for _, e := range phi.Edges {
+					switch x := e.(type) {
+					case *ssa.MakeClosure:
+						if f, isF := x.Fn.(*ssa.Function); !isF || len(f.Blocks) == 0 {
+							known = false
+						}
+					case *ssa.Function:
+						if len(x.Blocks) == 0 {
+							known = false
+						}
+					default:
+						known = false
+					}
+					if e != phi.Edges[0] {
+						distinct = true
+					}
+				}
+				if !known || !distinct {
+					continue
+				}
+				for _, ref := range *phi.Referrers() {
+					if call, isCall := ref.(*ssa.Call); isCall && call.Call.Value == ssa.Value(phi) {
+						found = true
+					}
+				}
+				if found {
+					break
+				}
+			}
+		}
 		// a location chosen by control flow and written later: `q = &w.sessionEvents`
 		// in one arm, `&w.cookieEvents` in the other, `*q = append(*q, ev)` behind
 		// the join
